@@ -223,7 +223,10 @@ def walk_exchange(stream, annot, impl):
 
 class C01(Prop):
     id = "C01"
-    streams = exch_streams("mix", {"F", "A"}, {"F", "K", "N"})
+    streams = exch_streams("mix", {"F", "A"}, {"F", "K", "N"}) + [
+        Stream(f"server-{k}", "mix", quick=250, thorough=20000,
+               tags={"F", "H", "C", "R", "PANIC", "REJECT-ADMISSION", "ok", "reset", "bad-op"},
+               state_tags={"A", "K", "N", "Q", "W", "I", "Z", "B", "U", "X", "L"}) for k in ("uist", "jura")]
     determined = False
     rule = ("random Uist and Jura histories (all order types, per-symbol quote gaps, deletions); non-trivial = an order was "
             "inserted, admitted by a tick and filled by a later tick in the same case; distinct = distinct op sequences")
@@ -242,7 +245,46 @@ class C01(Prop):
     def nontrivial(self, stream, annot, impl):
         return any("F" in sections(l) and sections(l)["F"] and sections(l)["F"][0] not in ("0",) for l in impl[2:])
 
+    def monitor_server(self, stream, annot, impl):
+        """server level: a fill is dated strictly after the clock date at which its order was submitted
+        (well-formed datasets; ticks issued after has_next was reported false are outside the property)"""
+        if not srv_wellformed(annot):
+            return
+        uist = stream.component == "server-uist"
+        sub = {}       # (backtest, quantity token) -> clock date at submission
+        done = set()   # backtests whose last tick reported has_next = false
+        for n, (op, out) in enumerate(zip(annot, impl)):
+            t = op.split()
+            s = sections(out)
+            if t[0] == "RESET":
+                sub, done = {}, set()
+            if t[0] in ("INIT", "NEWBT") and s.get("R", [""])[0] == "ok":
+                done.discard(int(s["R"][1]))
+                sub = {k: v for k, v in sub.items() if k[0] != int(s["R"][1])}
+            if t[0] == "INS" and s.get("R") == ["ok"] and s["C"][0] != "-":
+                qty = t[4] if uist else t[5]
+                sub[(int(t[1]), qty)] = int(s["C"][1])
+            if t[0] == "TICK" and s.get("R") == ["ok"] and "F" in s:
+                bt = int(t[1])
+                if bt in done:
+                    continue
+                f = s["F"][1:]
+                fills = [(f[k + 2], int(f[k + 3])) for k in range(0, len(f), 5)] if uist else [(f[k + 4], int(f[k + 5])) for k in range(0, len(f), 6)]
+                for qty, date in fills:
+                    d0 = sub.get((bt, qty))
+                    if d0 is None:
+                        yield (n, "fill-of-unknown-order", f"backtest {bt} fill qty {qty}")
+                        return
+                    if not date > d0:
+                        yield (n, "fill-dated-after-submission-clock", f"backtest {bt}: order submitted at clock {d0} filled with date {date}")
+                        return
+                if s["H"] == ["false"]:
+                    done.add(bt)
+
     def monitor(self, stream, annot, impl):
+        if stream.component.startswith("server-"):
+            yield from self.monitor_server(stream, annot, impl)
+            return
         stamp = {}   # uist: (sym, qty) -> number of ticks completed when the order was inserted
         admitted_at = {}   # jura: id -> tick number that admitted / created it
         nxt = 0
@@ -517,4 +559,215 @@ class C18(Prop):
         return fill and fired and dropped
 
 
-ALL = {c.id: c for c in [C01, C02, C03, C17, C18]}
+# ---------------------------------------------------------------- server protocol
+
+SRV_ALL = {"R", "H", "F", "A", "K", "N", "Q", "W", "I", "C", "Z", "PANIC", "REJECT-ADMISSION", "ok", "reset", "bad-op"}
+SRV_STATE = {"B", "U", "X", "L"}
+
+
+def srv_streams(flavour, tags, q=250, t=20000, kinds=("uist", "jura")):
+    return [Stream(f"server-{k}", flavour, quick=q, thorough=t, tags=set(tags) | {"PANIC", "REJECT-ADMISSION", "ok", "reset", "bad-op"},
+                   state_tags=(SRV_ALL | SRV_STATE) - set(tags)) for k in kinds]
+
+
+def srv_datasets(annot):
+    """dataset name -> (dates in first-insertion order, well_formed)"""
+    ds = {}
+    for op in annot:
+        t = op.split()
+        if t[0] == "DATA":
+            ds[t[1]] = []
+        elif t[0] == "Q" and int(t[3]) > 0:
+            d = int(t[2])
+            if d not in ds[t[1]]:
+                ds[t[1]].append(d)
+    return ds
+
+
+def srv_wellformed(annot):
+    """the property's datasets: d1 < ... < dN, every date listed once (what add_quote in date order builds)"""
+    seen = {}
+    for op in annot:
+        t = op.split()
+        if t[0] == "Q" and int(t[3]) > 0:
+            seen.setdefault(t[1], []).append(int(t[2]))
+    return all(v == sorted(set(v)) for v in seen.values())
+
+
+class C07(Prop):
+    id = "C07"
+    streams = srv_streams("clock", {"R", "H", "Q", "W", "C", "F"})
+    determined = True
+    determined_why = ("for a dataset d1<...<dN the property fixes the clock position and date after every request, the has_next "
+                      "flag of every tick and of now, the date of the quotes fetch_quotes returns and the date of the quotes a tick matches against")
+    rule = ("random request sequences (tick / fetch_quotes / now / info / insert / delete / init / new_backtest on ids 0..4) against both "
+            "AppStates, datasets of 1..40 dates with per-symbol gaps, one or two datasets, `single` and `create`; non-trivial = some "
+            "backtest was ticked to the end of its dataset (has_next false reported) and fetched or asked `now` on the way")
+    level_text = ("Theorems C07.* (Lean 4), for any exchange plugged into the server model (instantiated at Uist and Jura): after any "
+                  "interleaving of requests a backtest that received k ticks stands at pos k and shows dates[min k (N-1)]; the k-th tick "
+                  "hands exactly the quotes of d_k to the exchange and reports has_next iff k<N; now/fetch_quotes read that clock; a "
+                  "client looping while has_next performs exactly N ticks (fuelled loop, fuel shown sufficient). Tied to both AppStates "
+                  "by correspondence on responses, clock fields and exchange state, with a clock monitor on the implementation's traces.")
+    level_note = "Proof over the server model for any exchange; tie is differential; usize pos does not overflow"
+    technique = "Lean 4 invariant (clock = dates[min pos (N-1)]) by induction over request histories + fuelled-loop termination + correspondence"
+    design_ref = "DESIGN.md section 8, C07"
+    assumptions = ["datasets are built by add_quote in increasing date order (malformed datasets are generated too, but only compared against the model, not monitored)"]
+
+    def nontrivial(self, stream, annot, impl):
+        end = any("H" in sections(l) and sections(l)["H"] == ["false"] for l in impl)
+        looked = any(("Q" in sections(l)) or ("W" in sections(l)) for l in impl)
+        return end and looked and srv_wellformed(annot)
+
+    def monitor(self, stream, annot, impl):
+        if not srv_wellformed(annot):
+            return
+        ds = srv_datasets(annot)
+        k = {}      # live backtest -> (ticks so far, dataset name)
+        for n, (op, out) in enumerate(zip(annot, impl)):
+            t = op.split()
+            s = sections(out)
+            if t[0] == "RESET":
+                k = {}
+            if t[0] == "SINGLE" and out == "ok":
+                k[0] = (0, t[1])
+            if t[0] in ("INIT", "NEWBT") and s.get("R", [""])[0] == "ok":
+                k[int(s["R"][1])] = (0, t[1])
+            if t[0] not in ("TICK", "FETCH", "NOW", "INS", "DEL", "INFO", "INIT", "NEWBT"):
+                continue
+            if s.get("R", [""])[0] != "ok":
+                continue
+            bt = int(s["R"][1]) if t[0] in ("INIT", "NEWBT") else int(t[1])
+            if bt not in k:
+                continue
+            kk, name = k[bt]
+            dates = ds[name]
+            N = len(dates)
+            if t[0] == "TICK":
+                dk = dates[min(kk, N - 1)]
+                if kk < N:
+                    fd = ([int(x) for x in s["F"][4::5]] if stream.component == "server-uist" else [int(x) for x in s["F"][6::6]])
+                    if any(d != dk for d in fd):
+                        yield (n, "kth-tick-matches-dk-only", f"tick {kk + 1} reported fills dated {fd}, the clock date was {dk}")
+                        return
+                kk += 1
+                k[bt] = (kk, name)
+                if s["H"] != [str(kk < N).lower()]:
+                    yield (n, "has-next-iff-k-lt-N", f"tick {kk} of {N} reported has_next={s['H']}")
+                    return
+            want_date = dates[min(kk, N - 1)]
+            if "C" in s and s["C"][0] != "-":
+                if int(s["C"][0]) != kk or int(s["C"][1]) != want_date:
+                    yield (n, "clock-after-k-ticks", f"after {kk} ticks of {N}: pos {s['C'][0]} date {s['C'][1]}, expected pos {kk} date {want_date}")
+                    return
+            if t[0] == "FETCH" and "Q" in s:
+                qd = [int(x) for x in s["Q"][4::4]]
+                if any(d != want_date for d in qd):
+                    yield (n, "fetch-shows-current-date", f"quotes dated {qd}, clock {want_date}")
+                    return
+            if t[0] == "NOW" and "W" in s:
+                if int(s["W"][0]) != want_date or s["W"][1] != str(kk < N).lower():
+                    yield (n, "now-reads-the-clock", f"now {s['W']} after {kk} ticks of {N}, clock {want_date}")
+                    return
+
+
+class C08(Prop):
+    id = "C08"
+    streams = srv_streams("mix", {"R", "H", "F", "A", "K", "N", "Q", "W", "I", "C", "Z"})
+    determined = False
+    solo_cases_quick = 80
+    solo_cases_thorough = 3000
+    rule = ("random interleavings of init / new_backtest / insert / delete / tick / fetch / now / info over backtest ids 0..4 (some never "
+            "created), one or two datasets plus an unknown dataset name, on both AppStates; for a sample of cases every backtest's "
+            "response stream is also compared with a solo run of the implementation containing only the creations and that backtest's "
+            "requests; non-trivial = at least two backtests live and a request to an unknown id in the case")
+    level_text = ("Theorems C08.* (Lean 4), for any exchange in the server model: a successful creation returns last+1, stores it and "
+                  "touches no other entry; over every request history the returned ids are strictly increasing and above the initial "
+                  "counter; the responses to the requests addressed to one backtest equal those of the run containing only these "
+                  "requests (projection lemma by induction); unknown backtests/datasets are rejected with the state unchanged. Real "
+                  "thread schedules are not modelled (one Mutex held per handler: every serial order is covered). Tied to both AppStates "
+                  "by correspondence plus an implementation-only solo-run comparison.")
+    level_note = "Partial with respect to 'schedules': atomicity of each request is assumed from the Mutex held for the whole handler body"
+    technique = "Lean 4 projection/non-interference lemma by induction over interleavings + id monotonicity invariant + correspondence + solo-run metamorphic check"
+    design_ref = "DESIGN.md section 8, C08"
+    assumptions = ["each request is atomic (Mutex<AppState> held for the handler body)", "u64 backtest id counter does not overflow"]
+
+    def nontrivial(self, stream, annot, impl):
+        live = set()
+        unknown = False
+        for op, out in zip(annot, impl):
+            s = sections(out)
+            if "Z" in s:
+                live |= set(s["Z"][1:])
+            if s.get("R") == ["none"] and op.split()[0] in ("TICK", "INS", "DEL", "FETCH", "NOW", "INFO"):
+                unknown = True
+        return len(live) >= 2 and unknown
+
+    def monitor(self, stream, annot, impl):
+        returned = []
+        for n, (op, out) in enumerate(zip(annot, impl)):
+            t = op.split()
+            s = sections(out)
+            if t[0] == "RESET":
+                returned = []
+                prev_live = set()
+            if t[0] == "SINGLE" and out == "ok":
+                prev_live = {"0"}
+            if t[0] in ("INIT", "NEWBT"):
+                if s.get("R", [""])[0] == "ok":
+                    i = int(s["R"][1])
+                    if i in returned or (returned and i <= max(returned)) or str(i) in prev_live:
+                        yield (n, "fresh-id", f"creation returned id {i}; earlier ids {returned}, live before {sorted(prev_live)}")
+                        return
+                    returned.append(i)
+                    if s["C"][:2] != ["0", s["C"][1]] or s.get("B", ["x"])[0] != "0" or s.get("U") != ["0"]:
+                        yield (n, "fresh-backtest", f"new backtest state {out}")
+                        return
+                elif s.get("R") == ["none"]:
+                    if "Z" in s and set(s["Z"][1:]) != prev_live:
+                        yield (n, "rejected-creation-is-inert", f"live ids changed from {sorted(prev_live)} to {s['Z'][1:]}")
+                        return
+            if "Z" in s:
+                prev_live = set(s["Z"][1:])
+
+    def extra(self, stream, runs, wdir, tier, collect):
+        """implementation-only metamorphic check: per-backtest response streams equal those of solo runs"""
+        from . import core
+        import os
+        limit = self.solo_cases_thorough if tier == "thorough" else self.solo_cases_quick
+        solo_ops, index = [], []
+        ncase = 0
+        for (ops, annot, impl) in runs:
+            for o, i in zip(core.split_cases(ops), core.split_cases(impl)):
+                if ncase >= limit:
+                    break
+                ncase += 1
+                setup = [l for l in o if l.split()[0] in ("RESET", "DATA", "Q", "SINGLE", "CREATE")]
+                for bt in range(5):
+                    mine = [k for k, l in enumerate(o) if l.split()[0] in ("TICK", "INS", "DEL", "FETCH", "NOW", "INFO") and l.split()[1] == str(bt)]
+                    if not mine:
+                        continue
+                    keep = [k for k, l in enumerate(o) if l.split()[0] in ("INIT", "NEWBT")] + mine
+                    keep.sort()
+                    base = len(solo_ops) + len(setup)
+                    pos = {k: base + j for j, k in enumerate(keep)}
+                    solo_ops += setup + [o[k] for k in keep]
+                    index.append((o, i, bt, mine, pos))
+        if not solo_ops:
+            return
+        p = os.path.join(wdir, f"solo-{stream.component}.ops")
+        open(p, "w").write("\n".join(solo_ops) + "\n")
+        (_, _), simpl, _, _ = core.run_ops(stream, p, wdir, f"solo-{stream.component}")
+        collect["evaluations"] += len(solo_ops)
+        collect.setdefault("solo_runs", 0)
+        collect["solo_runs"] += len(index)
+        for (o, i, bt, mine, pos) in index:
+            for k in mine:
+                if i[k] != simpl[pos[k]]:
+                    ops_min = [l for l in o]
+                    collect["fails"].append(core.Failure("monitor", stream, ops_min, k, "responses-independent-of-other-backtests",
+                                                         f"backtest {bt}: in the interleaved run the response is [{i[k][:160]}], in the solo run [{simpl[pos[k]][:160]}]",
+                                                         impl=i[k], origin="solo-run comparison"))
+                    break
+
+
+ALL = {c.id: c for c in [C01, C02, C03, C07, C08, C17, C18]}
